@@ -239,7 +239,7 @@ def main(pid, tier):
     for w in witnesses:
         w.setdefault('property', pid)
         w['witness'] = True
-    maxw = int(os.environ.get("PVX_MAX_WITNESS", "60" if tier == "quick" else "200"))
+    maxw = int(os.environ.get("PVX_MAX_WITNESS", "120" if tier == "quick" else "400"))
     # deterministic sub-sample of witnesses
     if len(witnesses) > maxw:
         step = len(witnesses) / maxw
